@@ -1,8 +1,9 @@
+from checks import finite
 from checks.generic import run_components
 
 ASSUME = ["A-INT: Python/numpy ints treated as mathematical integers", "A-FLOAT: floats treated as reals"]
 
 
 def run(tier, seed):
-    return run_components("C01", tier, seed, ["e1", "e2", lambda rep, t, s: __import__("checks.e3ir", fromlist=["x"]).run_e3ir(rep, "C01", t)], ASSUME,
+    return run_components("C01", tier, seed, ["e1", finite.c03_table_predicates, "e2", lambda rep, t, s: __import__("checks.e3ir", fromlist=["x"]).run_e3ir(rep, "C01", t)], ASSUME,
                           ["kernelvc (E2 walker; scoping mirrors C/formatter.py)", "UFL form data as oracle for extents"])
